@@ -169,6 +169,8 @@ def value_problems(type_name, v):
         g = {'daterange': vdate, 'timerange': vtime, 'datetimerange': vdt}[ty]
         if st is None and en is None and val is None:
             out.append(ty + '-without-endpoints')
+        if st is None and en is None and val is not None:
+            out.append(ty + '-carries-a-bare-value-instead-of-endpoints')
         for x in (st, en):
             if x is not None and not g(str(x)):
                 out.append('invalid-' + ty + '-endpoint')
@@ -221,7 +223,7 @@ def classify_overlap(mt, cu, q, a, b, rel):
         return 'overlap:fr-bare-cent-inside-amount'
     # known-finding classifier: one participant is a date-time entity that swallowed a filler separating two expressions
     # (pt-br: PrepositionRegex matches the empty string, so ANY text between a date and a time is a connector; nl-nl: 'tot <time> . <n> op de <n>')
-    if mt == 'DateTimeModel' and cu in ('pt-br', 'nl-nl'):
+    if mt == 'DateTimeModel' and cu in ('pt-br', 'nl-nl', 'de-de'):
         fills = [f.strip() for f in CULT_FILLERS.get(cu, []) + FILLERS if f.strip()]
         if any((' %s ' % f) in (' %s ' % str(x[3])) or (f in '.;|' and f in str(x[3])) for x in (a, b) for f in fills):
             return 'overlap:date-time-entity-spans-a-filler'
@@ -294,11 +296,22 @@ HOUR_TEMPLATES = {
 }
 
 
-# fillers without a temporal or numeric meaning of their own (a filler like 'Later' / 'depois' / '然后' would itself be part of an expression)
-CULT_FILLERS = {'*': [' ; ', ' . ', ' | '], 'en-us': [' ; ', ' . ', ' and also ', ' but not '], 'es-es': [' ; ', ' . ', ' y también ', ' pero no '],
-                'es-mx': [' ; ', ' . ', ' y también '], 'fr-fr': [' ; ', ' . ', ' et aussi ', ' mais pas '], 'pt-br': [' ; ', ' . ', ' e também ', ' mas não '],
-                'it-it': [' ; ', ' . ', ' e anche ', ' ma non '], 'de-de': [' ; ', ' . ', ' und auch ', ' aber nicht '], 'nl-nl': [' ; ', ' . ', ' en ook ', ' maar niet '],
-                'zh-cn': ['；', '。', '，还有', ' ; '], 'ja-jp': ['；', '。', '、そして', ' ; ']}
+# fillers without a temporal or numeric meaning of their own (a filler like 'Later' / 'depois' / '然后' would itself be part of an
+# expression, and a full stop after a month abbreviation - 'sept . 4:00' - is part of a date)
+CULT_FILLERS = {'*': [' ; ', ' | '], 'en-us': [' ; ', ' | ', ' and also ', ' but not '], 'es-es': [' ; ', ' | ', ' y también ', ' pero no '],
+                'es-mx': [' ; ', ' | ', ' y también '], 'fr-fr': [' ; ', ' | ', ' et aussi ', ' mais pas '], 'pt-br': [' ; ', ' | ', ' e também ', ' mas não '],
+                'it-it': [' ; ', ' | ', ' e anche ', ' ma non '], 'de-de': [' ; ', ' | ', ' und auch ', ' aber nicht '], 'nl-nl': [' ; ', ' | ', ' en ook ', ' maar niet '],
+                'zh-cn': ['；', ' | ', '，还有', ' ; '], 'ja-jp': ['；', ' | ', '、そして', ' ; ']}
+EN_MODS = ['before', 'after', 'since', 'until', 'by', 'around', 'about', 'starting', 'starting from', 'no later than', 'prior to', 'since around', 'since about', 'before around',
+           'after about', 'after around', 'starting around', 'starting from around', 'until about', 'until around', 'from around', 'by around']
+CULT_MOD_EXPR = {
+    'es-es': ['desde alrededor del 5 de mayo', 'desde el 5 de mayo', 'antes del 5 de mayo', 'después de las 3pm', 'desde alrededor de las 3pm', 'hasta alrededor de las 3pm', 'alrededor de las 3pm'],
+    'fr-fr': ['depuis environ 13 heures', 'depuis 13 heures', 'avant le 5 mai', 'après 15h', 'depuis environ le 5 mai', "jusqu'à environ 15h", 'vers 15h'],
+    'pt-br': ['desde cerca de 5 de maio', 'desde 5 de maio', 'antes de 5 de maio', 'depois das 15h', 'desde cerca das 15h', 'até cerca das 15h'],
+    'nl-nl': ['sinds rond 13.00', 'sinds 13.00', 'voor 5 mei', 'na 15 uur', 'sinds ongeveer 5 mei', 'tot ongeveer 15 uur', 'rond 15 uur'],
+    'de-de': ['seit etwa 15 Uhr', 'seit 15 Uhr', 'vor dem 5. Mai', 'nach 15 Uhr', 'seit ungefähr dem 5. Mai', 'bis etwa 15 Uhr', 'gegen 15 Uhr'],
+    'it-it': ['da circa le 15', 'dalle 15', 'prima del 5 maggio', 'dopo le 15', 'da circa il 5 maggio', 'fino alle 15 circa', 'verso le 15'],
+}
 UNITPAIR_CULTURES = ['en-us', 'es-es', 'fr-fr', 'pt-br', 'it-it', 'de-de', 'nl-nl']
 UNITPAIR_DIMS = {'en-us': ['km', 'meters', 'miles', 'kg', 'pounds', 'liters', 'feet', 'inches'], 'de-de': ['km', 'Meter', 'kg', 'Liter', 'Zentimeter'],
                  'es-es': ['km', 'metros', 'kg', 'litros'], 'fr-fr': ['km', 'mètres', 'kg', 'litres'], 'it-it': ['km', 'metri', 'kg', 'litri'],
@@ -336,6 +349,7 @@ def plan(pid, tier, seed):
         jobs.append({'name': 'invalid-dates', 'kind': 'invalid', 'weight': 2})
         for cu in HOUR_TEMPLATES:
             jobs.append({'name': 'hourgrid-%s' % cu, 'kind': 'hourgrid', 'culture': cu, 'weight': 2})
+        jobs.append({'name': 'modifiers', 'kind': 'modifiers', 'weight': 2})
     for g in gens:
         try:
             mod = importlib.import_module('rtmon.checkers.' + g)
@@ -602,6 +616,33 @@ def run(pid, job, ctx):
                             lib.call(m, mt, q, dt.datetime(2016, 11, 7, 10, 30))
                         except Exception:
                             pass
+    elif kind == 'modifiers':
+        # one or two modifiers (before / after / since / until class x around class) in front of a date, time, date-time or period:
+        # the value shape follows the modifier (start / end / both), in English and in the cultures' own words
+        r = ctx.rng('modifiers')
+        m = dtlib.dt_model('en-us')
+        n = 30 if ctx.tier == 'quick' else 400
+        for _ in range(n):
+            d = dtlib.rand_date(r)
+            base = [dtlib.EN_LAYOUTS[r.choice(sorted(dtlib.EN_LAYOUTS))](d), '%s %d%s' % (r.choice(dtlib.MON_EN), r.randrange(1, 28), r.choice(['', 'th'])),
+                    '%d%s' % (r.randrange(1, 13), r.choice(['am', 'pm'])), '%d%s tomorrow' % (r.randrange(1, 13), r.choice(['am', 'pm'])), 'tomorrow', 'next %s' % r.choice(dtlib.WD_EN),
+                    '%02d:%02d' % (r.randrange(24), r.randrange(60)), '%d' % r.randrange(1990, 2030), 'next week', '%s %d' % (r.choice(dtlib.MON_EN), r.randrange(1990, 2030)),
+                    '%s at %d%s' % (d.isoformat(), r.randrange(1, 13), r.choice(['am', 'pm']))]
+            for mod in EN_MODS:
+                for b in (base if ctx.tier == 'thorough' else r.sample(base, 4)):
+                    for car in ('{}', 'I have been away {} .'):
+                        try:
+                            m.parse(car.format('%s %s' % (mod, b)), dtlib.rand_ref(r))
+                        except Exception:
+                            pass
+        for cu, qs in CULT_MOD_EXPR.items():
+            mm = dtlib.dt_model(cu)
+            for q in qs:
+                for car in ('{}', 'x {} .'):
+                    try:
+                        mm.parse(car.format(q), dtlib.rand_ref(r))
+                    except Exception:
+                        pass
     elif kind == 'hourgrid':
         # ranges of two clock hours, every (begin, end) pair 0..24 incl. end < begin, with and without am/pm markers and minutes,
         # alone and attached to a date expression: the hour arithmetic (am/pm reading, +12, wrap over midnight) runs on every pair
